@@ -103,7 +103,7 @@ Definition unlocked_create_pget (s : pstate) (t : nat) (th : pthread) (sig : nat
          (upd_nth (pthreads s) t (mkPT PIdle (pscript th) (S (popi th)) (x :: pheld th) (pres th ++ [Z.of_nat x])))
          false
   | None =>
-    if Nat.ltb created' (plimit s) then   (* admitted; lock released; created not yet counted *)
+    if Nat.ltb created' (plimit s) then   (* let in; lock released; created not yet counted *)
       mkPS (plimit s) (pmaxage s) created' idle' (pclock s) (S (pnext s)) sig destroyed'
            (upd_nth (pthreads s) t (mkPT (PCreating (pnext s)) (pscript th) (popi th) (pnext s :: pheld th) (pres th)))
            false
